@@ -352,6 +352,8 @@ func init() {
 	reg("(*strings.Builder).copyCheck", func(fr *frame, fn *ssa.Function, a []Value) Value { return nil })
 	reg("internal/abi.NoEscape", func(fr *frame, fn *ssa.Function, a []Value) Value { return a[0] })
 	reg("internal/abi.Escape", func(fr *frame, fn *ssa.Function, a []Value) Value { return a[0] })
+	reg("runtime.GOMAXPROCS", func(fr *frame, fn *ssa.Function, a []Value) Value { return BVI(64, 4) })
+	reg("runtime.NumCPU", func(fr *frame, fn *ssa.Function, a []Value) Value { return BVI(64, 4) })
 	reg("runtime.KeepAlive", func(fr *frame, fn *ssa.Function, a []Value) Value { return nil })
 	reg("runtime.SetFinalizer", func(fr *frame, fn *ssa.Function, a []Value) Value { return nil })
 	reg("reflect.DeepEqual", func(fr *frame, fn *ssa.Function, a []Value) Value {
